@@ -123,3 +123,61 @@ def kexinit_with_bad_utf8(inp):
             judge("%s: KEXINIT name-list %d is not UTF-8" % ("server" if server else "client", field),
                   surfaced(server, [kexinit(bad_field=field)]), bad)
     return {"violates": bool(bad), "detail": bad[:3]}
+
+
+def auth_reply_garbage(inp):
+    """behind the key exchange: a server answers an authentication request (and a channel request) with messages whose
+    text fields are not UTF-8; the exception the client's auth call raises, and the one get_exception() returns, must be
+    SSHException / EOFError / a socket error"""
+    import socket as _s
+    import threading
+    import paramiko
+    from paramiko.message import Message
+    from paramiko.common import cMSG_USERAUTH_FAILURE, cMSG_USERAUTH_BANNER, AUTH_FAILED
+
+    bad = []
+    key = paramiko.ECDSAKey.generate()
+    for what in ("failure-list", "info-request"):
+        a, b = _s.socketpair()
+        ts = paramiko.Transport(a)
+        ts.add_server_key(key)
+
+        class Srv(paramiko.ServerInterface):
+            def get_allowed_auths(self, username):
+                return "password,keyboard-interactive"
+
+            def check_auth_password(self, username, password):
+                m = Message()
+                m.add_byte(cMSG_USERAUTH_FAILURE)
+                m.add_string(b"pass\xff\xfeword")
+                m.add_boolean(False)
+                ts._send_message(m)
+                return AUTH_FAILED
+
+            def check_auth_interactive(self, username, submethods):
+                m = Message()
+                m.add_byte(bytes([60]))                 # USERAUTH_INFO_REQUEST
+                m.add_string(b"title \xff\xfe")
+                m.add_string(b"")
+                m.add_string(b"")
+                m.add_int(0)
+                ts._send_message(m)
+                return AUTH_FAILED
+        ts.start_server(threading.Event(), Srv())
+        tc = paramiko.Transport(b)
+        exc = None
+        try:
+            tc.start_client(timeout=10)
+            if what == "failure-list":
+                tc.auth_password("u", "p")
+            else:
+                tc.auth_interactive("u", lambda *a: [])
+        except Exception as e:
+            exc = e
+        got = [exc, tc.get_exception()]
+        for e in got:
+            if e is not None and not isinstance(e, (paramiko.SSHException, EOFError, OSError)):
+                bad.append("%s: %s surfaced through the client API" % (what, type(e).__name__))
+        tc.close()
+        ts.close()
+    return {"violates": bool(bad), "detail": sorted(set(bad))[:4]}
